@@ -1,0 +1,82 @@
+//go:build verif
+
+package dynbt
+
+// govc contracts for this package (see /verif/DESIGN.md). Comment-only.
+
+// ---------------------------------------------------------------- dynamic NBT values (C01, C02, C03)
+//
+// A Value keeps scalars, strings and typed arrays as the exact payload bytes of the wire form in
+// v.data (so re-encoding writes them back unchanged), lists in v.list, compounds in v.comp.
+// Decoding must take exactly the payload bytes of the value, reject negative declared lengths,
+// never panic on any input and report reader failure.
+
+//@ define vbytes(v, st, p0, n) = len(v.data) == n && all(k, 0, n, v.data[k] == Sin(st, p0 + k)) && Spos(st) == p0 + n
+
+//@ func (*Value).UnmarshalNBT(v; tagType, r) (err)
+//@   split tagType in 0..12 else
+//@   let st = stream(r)
+//@   let row = Sinrow(st)
+//@   let p0 = old(Spos(st))
+//@   let L16 = int(int16(be16(row, p0)))
+//@   let L32 = int(int32(be32(row, p0)))
+//@   let LL = int(int32(be32(row, p0 + 1)))
+//@   requires base(v.data) != base(v) && base(v.list) != base(v) && base(v.comp.kvs) != base(v) && base(v.data) != base(r)
+//@   loop 0: modifies v.list, v.list[0:cap(v.list)], stream(r)
+//@   loop 0: invariant 0 <= int(i) && int(i) <= LL && len(v.list) == int(i) && Spos(st) >= p0 + 5 && !Sfail(st)
+//@   loop 0: invariant (base(v.list) == old(base(v.list)) && off(v.list) == old(off(v.list)) && cap(v.list) == old(cap(v.list))) || lfresh(v.list)
+//@   loop 1: modifies v.comp.kvs, v.comp.kvs[0:cap(v.comp.kvs)], stream(r)
+//@   loop 1: invariant Spos(st) >= p0 && !Sfail(st)
+//@   loop 1: invariant (base(v.comp.kvs) == old(base(v.comp.kvs)) && off(v.comp.kvs) == old(off(v.comp.kvs)) && cap(v.comp.kvs) == old(cap(v.comp.kvs))) || lfresh(v.comp.kvs)
+//@   ensures err == nil ==> v.tag == tagType && int(tagType) <= 12                   [@value @reject]
+//@   ensures err == nil && tagType == 1 ==> vbytes(v, st, p0, 1)                     [@value @consume]
+//@   ensures err == nil && tagType == 2 ==> vbytes(v, st, p0, 2)                     [@value @consume]
+//@   ensures err == nil && (tagType == 3 || tagType == 5) ==> vbytes(v, st, p0, 4)   [@value @consume]
+//@   ensures err == nil && (tagType == 4 || tagType == 6) ==> vbytes(v, st, p0, 8)   [@value @consume]
+//@   ensures err == nil && tagType == 8 ==> L16 >= 0 && vbytes(v, st, p0, 2 + L16)   [@value @consume @reject]
+//@   ensures err == nil && tagType == 7 ==> L32 >= 0 && vbytes(v, st, p0, 4 + L32)   [@value @consume @reject]
+//@   ensures err == nil && tagType == 11 ==> L32 >= 0 && vbytes(v, st, p0, 4 + 4*L32)   [@value @consume @reject]
+//@   ensures err == nil && tagType == 12 ==> L32 >= 0 && vbytes(v, st, p0, 4 + 8*L32)   [@value @consume @reject]
+//@   ensures err == nil && tagType == 9 ==> LL >= 0 && len(v.list) == LL && Spos(st) >= p0 + 5   [@count @reject]
+//@   ensures err == nil && tagType == 10 ==> Spos(st) >= p0 + 1                      [@consume]
+//@   ensures err == nil && tagType == 0 ==> Spos(st) == p0                           [@consume]
+//@   ensures Sfail(st) ==> err != nil                                                [@errprop]
+//@   ensures Spos(st) >= p0                                                          [@consume]
+//@   modifies *v, v.data[0:cap(v.data)], v.list[0:cap(v.list)], v.comp.kvs[0:cap(v.comp.kvs)], stream(r)   [@frame]
+
+//@ func readInt16(r) (res, err)
+//@   let st = stream(r)
+//@   let p0 = old(Spos(st))
+//@   ensures err == nil ==> res == int16(be16(Sinrow(st), p0)) && Spos(st) == p0 + 2 [@value @consume]
+//@   ensures Sfail(st) ==> err != nil                                                [@errprop]
+//@   ensures !Sfail(st) ==> err == nil                                               [@errprop]
+//@   ensures Spos(st) >= p0 && Spos(st) <= p0 + 2                                    [@consume]
+//@   modifies stream(r)                                                              [@frame]
+
+//@ func readInt32(r) (res, err)
+//@   let st = stream(r)
+//@   let p0 = old(Spos(st))
+//@   ensures err == nil ==> res == int32(be32(Sinrow(st), p0)) && Spos(st) == p0 + 4 [@value @consume]
+//@   ensures Sfail(st) ==> err != nil                                                [@errprop]
+//@   ensures !Sfail(st) ==> err == nil                                               [@errprop]
+//@   ensures Spos(st) >= p0 && Spos(st) <= p0 + 4                                    [@consume]
+//@   modifies stream(r)                                                              [@frame]
+
+//@ func readString(r) (res, err)
+//@   let st = stream(r)
+//@   let p0 = old(Spos(st))
+//@   let L = int(int16(be16(Sinrow(st), p0)))
+//@   ensures err == nil ==> L >= 0 && len(res) == L && Spos(st) == p0 + 2 + L        [@count @consume]
+//@   ensures err == nil ==> all(k, 0, L, res[k] == Sin(st, p0 + 2 + k))             [@value]
+//@   ensures Sfail(st) ==> err != nil                                                [@errprop]
+//@   ensures !Sfail(st) && L < 0 ==> err != nil                                      [@reject]
+//@   ensures Spos(st) >= p0                                                          [@consume]
+//@   modifies stream(r)                                                              [@frame]
+
+//@ func readTag(r) (tagType, tagName, err)
+//@   let st = stream(r)
+//@   let p0 = old(Spos(st))
+//@   ensures err == nil ==> tagType == Sin(st, p0) && Spos(st) >= p0 + 1             [@value @consume]
+//@   ensures Sfail(st) ==> err != nil                                                [@errprop]
+//@   ensures Spos(st) >= p0                                                          [@consume]
+//@   modifies stream(r)                                                              [@frame]
